@@ -126,12 +126,15 @@ def coqchk(chk, mods):
 
 def run(chk):
     quick = chk.tier == 'quick'
-    objs, stats = tr_c18_statics.generate()
-    flagged = [o for o in objs if o['writers'] or o['src_writes']]
-    chk.log('statics: %d data objects, %d in writable sections, %d with writes: %s' % (
-        stats['total'], len(objs), len(flagged), [o['name'] for o in flagged]))
     r1 = chk.prove('Properties_C18')
-    r2 = chk.prove('Properties_C18_Statics')
+    # the regenerated file is specific to the tree under test: keep concurrent runs against different trees
+    # (VERIF_REPO) from interleaving between regeneration and proof
+    with vlib.Lock('c18-statics'):
+        objs, stats = tr_c18_statics.generate()
+        flagged = [o for o in objs if o['writers'] or o['src_writes']]
+        chk.log('statics: %d data objects, %d in writable sections, %d with writes: %s' % (
+            stats['total'], len(objs), len(flagged), [o['name'] for o in flagged]))
+        r2 = chk.prove('Properties_C18_Statics')
     exe = build()
     chk.cov['trusted_base'] += [
         'tools/tr_c18_statics.py (readelf/objdump over -O0 -fdata-sections objects, regex source scan for assignments)',
